@@ -32,6 +32,7 @@ struct Plan {
   std::vector<Task> tasks;          // mt
   std::vector<int> schedule;        // mt: decision at the k-th yield point: 0 continue, j>0 switch to the j-th next runnable
   std::string note;                 // free text: how the plan was made
+  std::vector<Plan> history;        // plans executed before this one in the same process (their outcomes are not judged): what came earlier must not matter
 };
 
 Json plan_to_json(const Plan &p);
@@ -61,7 +62,7 @@ struct Outcome {
 struct SimAbort { };   // thrown through library code to end a run at a violation or an exceeded budget
 
 // phases for crash attribution (kept in shared memory by the driver)
-enum Phase { PH_NONE = 0, PH_GEN = 1, PH_COMPILE = 2, PH_LOAD = 3, PH_VMRUN = 4, PH_DEBUGGER = 5, PH_SCAN = 6, PH_MACRO = 7, PH_HARNESS = 8 };
+enum Phase { PH_NONE = 0, PH_GEN = 1, PH_COMPILE = 2, PH_LOAD = 3, PH_VMRUN = 4, PH_DEBUGGER = 5, PH_SCAN = 6, PH_MACRO = 7, PH_HARNESS = 8, PH_SESSION = 9 /* instructions executed inside a debugger session; the uninterrupted run has executed the same instructions before */ };
 extern volatile int *g_phase_slot;
 extern volatile long long g_progress;          // bumped by every hook event, every phase change and by long harness loops
 inline void bump_progress() { g_progress = g_progress + 1; }
@@ -112,6 +113,7 @@ Plan gen_mt_plan(const std::string &prop, Rng &rng, long long sub, const std::st
 void exec_mt_plan(const Plan &plan, Ctx &ctx, Outcome &out);
 
 Plan materialise_fs_plan(const Plan &plan);
+void attach_history(Plan &p, Rng &rng);   // a generated earlier plan of the same process (sibling project)
 Project random_macro_project(Rng &rng, bool random_set);   // a macro family or a random macro set with uses, as raw text   // faults applied: the delivered files become the (raw) project, no fault ops left
 uint64_t allocated_bytes();   // sanitizer's live heap bytes (0 when unavailable)
 
